@@ -79,6 +79,11 @@ BUILTIN = {
  'std::ptrdiff_t': 'long', 'ptrdiff_t': 'long',
 }
 SCALAR_C = set(BUILTIN.values()) - {'void'}
+# library types that have a model in stubs/common.h (used by TypeMap.lookup when no rule of the spec matches)
+STD_TYPES = [(r'std::hash<double>', 'StdHashD', 'ptr')]
+# std:: functions on doubles that have a model in stubs/common.h (used by e_CallExpr when the spec gives no //@free rule)
+STD_DOUBLE_FREE = {'floor(double)': 'd_floor', 'ceil(double)': 'd_ceil', 'real(double)': 'd_real', 'imag(double)': 'd_imag',
+                   'min(double,double)': 'd_min', 'max(double,double)': 'd_max'}
 
 def split_top(s, sep=','):
     out = []; depth = 0; cur = ''
@@ -160,6 +165,8 @@ class TypeMap:
             if cand in self.typedefs and self.typedefs[cand] != core:
                 return self.resolve(self.typedefs[cand])
         m = re.match(r'^(.*)\[(\d*)\]$', core)
+        for rx, cname, kind in STD_TYPES:          # library types with a model in stubs/common.h (the spec's own rules come first)
+            if re.match('^(?:' + rx + ')$', core): return cname, kind
         raise ExtractionBreak('no C model for type "%s"' % core)
     def resolve(self, q):
         """full: returns (ctype string, kind) -- pointers/references become pointers (kind 'scalar' for the pointer itself)"""
@@ -436,6 +443,7 @@ class Printer:
     # ---------- expressions
     def expr(self, n):
         k = n.get('kind')
+        if n.get('id') is not None and n.get('id') in getattr(self, 'subst', {}): return self.subst[n['id']]
         if k in TRANSPARENT: return self.expr(n['inner'][0])
         f = getattr(self, 'e_' + k, None)
         if f is None: raise ExtractionBreak('no rule for expression node ' + str(k))
@@ -591,6 +599,10 @@ class Printer:
             if '~' in key and key.split('~', 1)[0] == name and key.split('~', 1)[1] in r['type']['qualType']: cname = self.free[key]
         for key in (name + '(' + ','.join(tys) + ')', name):
             if cname is None and key in self.free: cname = self.free[key]; break
+        # <cmath>/<algorithm>/<complex> calls on doubles without a `//@free` rule: the models of stubs/common.h (std:: only: the callee
+        # is not a declaration of the extracted namespace)
+        if cname is None and self.tu.index.get(r.get('id')) is None:
+            cname = STD_DOUBLE_FREE.get(name + '(' + ','.join(tys) + ')')
         if cname is None: cname = sanitize(name)
         d = self.tu.index.get(r.get('id'))
         al = self.args(args, ptypes)
@@ -928,6 +940,34 @@ class Printer:
         if c is None: return []
         self.used_loops.add(k)
         return [ind + '  ' + l for l in c.strip().split('\n')]
+    def hoist_throwing_args(self, top, ind):
+        """`f(g(..), ..)` as a whole statement / initialiser where the ARGUMENT call g may throw: C++ leaves before f is entered.
+        The argument is evaluated into a temporary first, followed by the exception check; returns those statements."""
+        t = top
+        while t.get('kind') in TRANSPARENT: t = t['inner'][0]
+        if t.get('kind') in ('CXXConstructExpr', 'CXXTemporaryObjectExpr'): args = t.get('inner', [])
+        elif t.get('kind') in ('CallExpr', 'CXXMemberCallExpr'): args = t.get('inner', [])[1:]
+        else: return []
+        out = []
+        if not hasattr(self, 'subst'): self.subst = {}
+        for a in args:
+            b = a
+            while b.get('kind') in TRANSPARENT or (b.get('kind') == 'ImplicitCastExpr' and b.get('castKind') == 'NoOp') or \
+                  (b.get('kind') == 'CXXConstructExpr' and len(b.get('inner', [])) == 1):       # copy / move construction of the parameter from the call's result
+                b = b['inner'][0]
+            if b.get('kind') not in ('CallExpr', 'CXXMemberCallExpr') or b.get('id') is None: continue
+            ncalls = len(self.calls)
+            e = self.expr(b)
+            if not any(c in self.maythrow for c in self.calls[ncalls:]): continue
+            try: c, k = self.ctype(b['type'])
+            except ExtractionBreak: continue
+            if e.startswith('(*') and simp_addr(e) != '&' + e: continue       # returns a reference: not hoisted
+            self.nhoist = getattr(self, 'nhoist', 0) + 1
+            tmp = '__verif_arg%d' % self.nhoist
+            out.append(ind + '%s %s = %s;' % (c, tmp, e))
+            out.append(ind + 'if (VERIF_thrown) { %s }' % self.default_return())
+            self.subst[b['id']] = tmp
+        return out
     def vardecl(self, d, ind):
         q = d['type'].get('qualType', '')
         name = d['name']
@@ -951,7 +991,8 @@ class Printer:
         if d.get('storageClass') == 'static': decl = 'static ' + decl
         if not inits:
             return [ind + decl + ';']
-        return [ind + '%s = %s;' % (decl, self.expr(inits[0]))] + self.throw_check(ncalls, ind)
+        pre = self.hoist_throwing_args(inits[0], ind)
+        return pre + [ind + '%s = %s;' % (decl, self.expr(inits[0]))] + self.throw_check(ncalls, ind)
 
     # ---------- functions
     def function(self, fn, cname, contract='', loop_contracts=None):
